@@ -231,7 +231,7 @@ def req_flags(sc):
 
 
 IMPORTS = ("From KP Require Import model.Base model.Trace model.M5gate model.M5path corr.C07corr.\n"
-           "Local Open Scope N_scope.\n")
+           "")
 EXPR = ("fun tq => let tr := fst tq in let rq := snd tq in "
         "(gate_accepts tr, first_reject gstep ginit tr 0, path_accepts tr, first_reject pstep pinit tr 0, "
         "c07_judge tr rq, c07_stats tr)")
